@@ -1,9 +1,12 @@
 package main
 
 import (
+	"encoding/json"
 	"fmt"
 	"go/token"
 	"go/types"
+	"os"
+	"path/filepath"
 	"sort"
 	"strings"
 
@@ -642,5 +645,426 @@ func ruleXBuf(p *Prog, r *Report) {
 		r.Undecided("XBUF", key, p.posStr(f.Pos()), "no store of a *bufio.Reader found")
 	default:
 		r.OK("XBUF", key, p.posStr(f.Pos()), fmt.Sprintf("%d origin(s) of the reader, each of at least %d bytes", n, want))
+	}
+}
+
+// GUIDCUT (C13): the GUID of a document or instance identifier is what follows the LAST colon.
+//
+// xmpMM:DocumentID and its siblings are URIs whose scheme part may itself contain colons - "xmp.did:…", "uuid:…",
+// "urn:uuid:…", "adobe:docid:photoshop:…" (what Photoshop writes). parseUUID must therefore split at the last ':';
+// splitting at the first one hands "docid:photoshop:…" to the UUID decoder, which refuses it, and the identifier is
+// reported as the nil UUID.
+func ruleGuidCut(p *Prog, r *Report) {
+	r.Explain("GUIDCUT: xmp.parseUUID separates the scheme of an identifier URI from its GUID at the last colon (bytes.LastIndexByte or a backward scan), not at the first (readUntil, bytes.IndexByte): the documented forms urn:uuid:… and adobe:docid:photoshop:… have more than one.")
+	f := p.Func("xmp", "", "parseUUID")
+	key := "xmp.parseUUID | the scheme is cut off at the last colon"
+	if f == nil {
+		r.Undecided("GUIDCUT", key, "-", "unresolved anchor")
+		return
+	}
+	first, last := "", false
+	eachCall(f, func(site ssa.CallInstruction) {
+		c := site.Common()
+		sc := c.StaticCallee()
+		if sc == nil {
+			return
+		}
+		hasColon := false
+		for _, a := range c.Args {
+			if k, ok := constInt(a); ok && k == ':' {
+				hasColon = true
+			}
+		}
+		if !hasColon {
+			return
+		}
+		switch {
+		case sc.String() == "bytes.LastIndexByte" || sc.String() == "strings.LastIndexByte":
+			last = true
+		case sc.String() == "bytes.IndexByte" || sc.String() == "strings.IndexByte" || (isRepoFn(sc) && sc.Name() == "readUntil"):
+			first = shortCallee(c) + " at " + p.posStr(instrPos(site))
+		}
+	})
+	// a backward scan written by hand: an induction variable with step -1 compared against ':'
+	for _, b := range f.Blocks {
+		for _, in := range b.Instrs {
+			if ph, ok := in.(*ssa.Phi); ok {
+				if ind, ok := inductionOf(ph); ok && ind.Step == -1 {
+					last = true
+				}
+			}
+		}
+	}
+	switch {
+	case first != "":
+		r.Bad("GUIDCUT", key, p.posStr(f.Pos()), "the identifier is split at its first colon ("+first+"): for \"adobe:docid:photoshop:<guid>\" and \"urn:uuid:<guid>\" the rest still carries a scheme part, the UUID decoder refuses it and the identifier is reported as the nil UUID")
+	case last:
+		r.OK("GUIDCUT", key, p.posStr(f.Pos()), "split at the last colon")
+	default:
+		r.Undecided("GUIDCUT", key, p.posStr(f.Pos()), "no split at a colon recognised")
+	}
+}
+
+// GPSFORM (C13): an XMP GPS coordinate is "DDD,MM.mmk" or "DDD,MM,SSk" with k one of N, S, E, W.
+//
+// The hemisphere - the sign of the coordinate - is carried by that letter only. Obligation per store into a
+// GPSLatitude / GPSLongitude field of the xmp result structs: the stored value comes from a library function that
+// compares a byte with 'S' and with 'W' (directly or in a function it calls). A plain decimal-number parser reads
+// every standard coordinate as 0.
+func ruleGpsForm(p *Prog, r *Report) {
+	r.Explain("GPSFORM: the value stored into the GPSLatitude and GPSLongitude fields of package xmp comes from a library function that tests a byte against the hemisphere letters S and W: the XMP GPSCoordinate form DDD,MM.mmk / DDD,MM,SSk carries the sign only there, and a decimal-number parser reads it as 0.")
+	pk := p.SSAPkg("xmp")
+	if pk == nil {
+		r.Fatal("unresolved anchor: package xmp")
+		return
+	}
+	var testsLetters func(f *ssa.Function, d int, seen map[*ssa.Function]bool) (s, w bool)
+	testsLetters = func(f *ssa.Function, d int, seen map[*ssa.Function]bool) (s, w bool) {
+		if d > 3 || seen[f] || f.Blocks == nil {
+			return
+		}
+		seen[f] = true
+		eachInstr(f, func(_ *ssa.BasicBlock, _ int, in ssa.Instruction) {
+			switch x := in.(type) {
+			case *ssa.BinOp:
+				if x.Op == token.EQL || x.Op == token.NEQ {
+					for _, o := range []ssa.Value{x.X, x.Y} {
+						if k, ok := constInt(o); ok {
+							s = s || k == 'S'
+							w = w || k == 'W'
+						}
+					}
+				}
+			case ssa.CallInstruction:
+				if sc := x.Common().StaticCallee(); sc != nil && isRepoFn(sc) {
+					s2, w2 := testsLetters(sc, d+1, seen)
+					s, w = s || s2, w || w2
+				}
+			}
+		})
+		return
+	}
+	n := 0
+	for _, f := range p.AllLibFns() {
+		if f.Pkg != pk || f.Blocks == nil {
+			continue
+		}
+		eachInstr(f, func(_ *ssa.BasicBlock, _ int, in ssa.Instruction) {
+			st, ok := in.(*ssa.Store)
+			if !ok {
+				return
+			}
+			fa, ok := st.Addr.(*ssa.FieldAddr)
+			if !ok {
+				return
+			}
+			fname := fieldName(fa.X.Type(), fa.Field)
+			if fname != "GPSLatitude" && fname != "GPSLongitude" {
+				return
+			}
+			n++
+			key := fmt.Sprintf("%s | %s is read from the GPSCoordinate form", fnName(f), fname)
+			at := p.posStr(st.Pos())
+			v := st.Val
+			for i := 0; i < 3; i++ {
+				if cv, ok := v.(*ssa.Convert); ok {
+					v = cv.X
+				}
+			}
+			c, ok := v.(*ssa.Call)
+			if !ok || c.Call.StaticCallee() == nil || !isRepoFn(c.Call.StaticCallee()) {
+				r.Undecided("GPSFORM", key, at, "the stored value is not the result of a library function")
+				return
+			}
+			s, w := testsLetters(c.Call.StaticCallee(), 0, map[*ssa.Function]bool{})
+			if s && w {
+				r.OK("GPSFORM", key, at, fnName(c.Call.StaticCallee())+" tests the hemisphere letters")
+			} else {
+				r.Bad("GPSFORM", key, at, "the value is parsed by "+fnName(c.Call.StaticCallee())+", which never looks for the hemisphere letter: the standard forms \"33,51.357S\" and \"151,12,30W\" are read as 0 and the coordinate is lost")
+			}
+		})
+	}
+	if n == 0 {
+		r.Undecided("GPSFORM", "xmp | GPS coordinate fields", "-", "no store into GPSLatitude/GPSLongitude found (anchor lost)")
+	}
+}
+
+// RATFORM (C13): a property of XMP type Rational is read by a parser that knows the slash.
+//
+// spec/xmp_value_types.json lists, from the XMP specification, the struct fields that receive Rational properties
+// (written "n/d"). Obligation per store into such a field: the stored value comes from a library function that
+// tests a byte against '/' (directly or in a function it calls - parseRational does). A decimal-number parser
+// reads "1234/10" as 0.
+func ruleRatForm(p *Prog, r *Report) {
+	r.Explain("RATFORM: for every struct field of package xmp that spec/xmp_value_types.json marks as receiving a Rational property, the value stored into it comes from a library function that tests a byte against the slash (directly or through a callee): a rational written n/d is otherwise read by a decimal-number parser as 0.")
+	b, err := os.ReadFile(filepath.Join(verifRoot(), "spec", "xmp_value_types.json"))
+	if err != nil {
+		r.Fatal("spec/xmp_value_types.json: " + err.Error())
+		return
+	}
+	var spec struct {
+		Rational map[string][]string `json:"rational_fields"`
+	}
+	if err := json.Unmarshal(b, &spec); err != nil {
+		r.Fatal("spec/xmp_value_types.json: " + err.Error())
+		return
+	}
+	want := map[string]bool{}
+	for st, fs := range spec.Rational {
+		for _, f := range fs {
+			want[st+"."+f] = true
+		}
+	}
+	pk := p.SSAPkg("xmp")
+	if pk == nil {
+		r.Fatal("unresolved anchor: package xmp")
+		return
+	}
+	var testsSlash func(f *ssa.Function, d int, seen map[*ssa.Function]bool) bool
+	testsSlash = func(f *ssa.Function, d int, seen map[*ssa.Function]bool) bool {
+		if d > 3 || seen[f] || f.Blocks == nil {
+			return false
+		}
+		seen[f] = true
+		found := false
+		eachInstr(f, func(_ *ssa.BasicBlock, _ int, in ssa.Instruction) {
+			switch x := in.(type) {
+			case *ssa.BinOp:
+				if x.Op == token.EQL || x.Op == token.NEQ {
+					for _, o := range []ssa.Value{x.X, x.Y} {
+						if k, ok := constInt(o); ok && k == '/' {
+							found = true
+						}
+					}
+				}
+			case ssa.CallInstruction:
+				c := x.Common()
+				if sc := c.StaticCallee(); sc != nil {
+					if isRepoFn(sc) {
+						if testsSlash(sc, d+1, seen) {
+							found = true
+						}
+					} else if sc.String() == "bytes.IndexByte" || sc.String() == "bytes.LastIndexByte" {
+						for _, a := range c.Args {
+							if k, ok := constInt(a); ok && k == '/' {
+								found = true
+							}
+						}
+					}
+				}
+			}
+		})
+		return found
+	}
+	seenField := map[string]bool{}
+	okField, badField := map[string]string{}, map[string]string{}
+	for _, f := range p.AllLibFns() {
+		if f.Pkg != pk || f.Blocks == nil {
+			continue
+		}
+		eachInstr(f, func(_ *ssa.BasicBlock, _ int, in ssa.Instruction) {
+			st, ok := in.(*ssa.Store)
+			if !ok {
+				return
+			}
+			fa, ok := st.Addr.(*ssa.FieldAddr)
+			if !ok {
+				return
+			}
+			n := namedOfPtr(fa.X.Type())
+			if n == nil {
+				return
+			}
+			fq := n.Obj().Name() + "." + fieldName(fa.X.Type(), fa.Field)
+			if !want[fq] {
+				return
+			}
+			seenField[fq] = true
+			key := "xmp " + fq + " | read from the n/d form"
+			at := p.posStr(st.Pos())
+			// the calls the stored value is computed from
+			var calls []*ssa.Call
+			var walk func(v ssa.Value, d int)
+			walk = func(v ssa.Value, d int) {
+				if d > 5 {
+					return
+				}
+				switch x := v.(type) {
+				case *ssa.Call:
+					calls = append(calls, x)
+					for _, a := range x.Call.Args {
+						walk(a, d+1)
+					}
+				case *ssa.Convert:
+					walk(x.X, d+1)
+				case *ssa.ChangeType:
+					walk(x.X, d+1)
+				case *ssa.Extract:
+					walk(x.Tuple, d+1)
+				case *ssa.BinOp:
+					walk(x.X, d+1)
+					walk(x.Y, d+1)
+				}
+			}
+			walk(st.Val, 0)
+			ok2 := false
+			for _, c := range calls {
+				if sc := c.Call.StaticCallee(); sc != nil && isRepoFn(sc) && testsSlash(sc, 0, map[*ssa.Function]bool{}) {
+					ok2 = true
+				}
+			}
+			if ok2 {
+				okField[fq] = at
+			} else if _, have := badField[fq]; !have {
+				badField[fq] = at
+			}
+			_ = key
+		})
+	}
+	for fq := range want {
+		key := "xmp " + fq + " | read from the n/d form"
+		if at, ok := okField[fq]; ok {
+			// a further store that does not go through it is the fallback for another spelling
+			r.OK("RATFORM", key, at, "a store of the field is computed through a function that tests for the slash")
+		} else if at, bad := badField[fq]; bad {
+			r.Bad("RATFORM", key, at, "the value is computed without any function that looks for the slash: a rational written \"1234/10\" goes to a decimal-number parser and is read as 0")
+		}
+	}
+	// fields filled through a method called on their address (exif.ExposureBias.UnmarshalText(...))
+	for _, f := range p.AllLibFns() {
+		if f.Pkg != pk || f.Blocks == nil {
+			continue
+		}
+		eachCall(f, func(site ssa.CallInstruction) {
+			c := site.Common()
+			sc := c.StaticCallee()
+			if sc == nil || !isRepoFn(sc) {
+				return
+			}
+			for _, a := range c.Args {
+				fa, ok := a.(*ssa.FieldAddr)
+				if !ok {
+					continue
+				}
+				n := namedOfPtr(fa.X.Type())
+				if n == nil {
+					continue
+				}
+				fq := n.Obj().Name() + "." + fieldName(fa.X.Type(), fa.Field)
+				if !want[fq] || seenField[fq] {
+					continue
+				}
+				seenField[fq] = true
+				key := "xmp " + fq + " | read from the n/d form"
+				if testsSlash(sc, 0, map[*ssa.Function]bool{}) {
+					r.OK("RATFORM", key, p.posStr(instrPos(site)), "filled by "+fnName(sc)+", which tests for the slash")
+				} else {
+					r.Bad("RATFORM", key, p.posStr(instrPos(site)), "filled by "+fnName(sc)+", which never looks for the slash")
+				}
+			}
+		})
+	}
+	for fq := range want {
+		if !seenField[fq] {
+			r.Undecided("RATFORM", "xmp "+fq+" | read from the n/d form", "-", "no store into the field found (the property is not dispatched, or the anchor is lost)")
+		}
+	}
+}
+
+// DATEFORMS (C13): parseDate knows every form of the XMP Date type.
+//
+// spec/xmp_date_forms.json lists the forms of the specification as Go layouts. The layouts that parseDate and the
+// library functions it calls hand to time.Parse - string constants, or the elements of an immutable package-level
+// string table that a loop iterates - must contain each of them (a layout with a fraction stands for the one
+// without, since time.Parse accepts a fraction after a seconds field). A date-only or minute-precision value is
+// otherwise refused and the property is reported as the zero time.
+func ruleDateForms(p *Prog, r *Report) {
+	r.Explain("DATEFORMS: the set of layouts that xmp.parseDate and the library functions it calls pass to time.Parse (constants, or all elements of an immutable string table) contains every form of spec/xmp_date_forms.json: year, year-month, date, date with hours and minutes, and date with seconds, each time with and without a zone designator.")
+	b, err := os.ReadFile(filepath.Join(verifRoot(), "spec", "xmp_date_forms.json"))
+	if err != nil {
+		r.Fatal("spec/xmp_date_forms.json: " + err.Error())
+		return
+	}
+	var spec struct {
+		Layouts []string `json:"layouts"`
+	}
+	if err := json.Unmarshal(b, &spec); err != nil {
+		r.Fatal("spec/xmp_date_forms.json: " + err.Error())
+		return
+	}
+	f := p.Func("xmp", "", "parseDate")
+	if f == nil {
+		r.Undecided("DATEFORMS", "xmp.parseDate", "-", "unresolved anchor")
+		return
+	}
+	have := map[string]bool{}
+	und := ""
+	seen := map[*ssa.Function]bool{}
+	var visit func(g *ssa.Function, d int)
+	visit = func(g *ssa.Function, d int) {
+		if seen[g] || d > 3 || g.Blocks == nil {
+			return
+		}
+		seen[g] = true
+		eachCall(g, func(site ssa.CallInstruction) {
+			c := site.Common()
+			if isCallTo(c, "time.Parse") {
+				if lay, ok := constString(c.Args[0]); ok {
+					have[lay] = true
+					return
+				}
+				// an element of an immutable string table
+				v := c.Args[0]
+				if ex, ok := v.(*ssa.Extract); ok {
+					v = ex.Tuple
+				}
+				var tbl *ssa.Global
+				switch x := v.(type) {
+				case *ssa.UnOp:
+					if ia, ok := x.X.(*ssa.IndexAddr); ok {
+						tbl = globalOf(ia.X)
+					}
+				case *ssa.Next:
+					if rg, ok := x.Iter.(*ssa.Range); ok {
+						tbl = loadOfGlobal(rg.X)
+					}
+				case *ssa.Index:
+					tbl = loadOfGlobal(x.X)
+				}
+				if tbl != nil && p.Tables().Immutable(tbl) {
+					if tv := p.Tables().Val(tbl); tv != nil && tv.Kind == "strings" {
+						for _, s := range tv.Strs {
+							have[s] = true
+						}
+						return
+					}
+				}
+				und = "a time.Parse layout at " + p.posStr(instrPos(site)) + " is neither a constant nor an element of an immutable string table"
+				return
+			}
+			if sc := c.StaticCallee(); sc != nil && isRepoFn(sc) {
+				visit(sc, d+1)
+			}
+		})
+	}
+	visit(f, 0)
+	covers := func(l string) bool {
+		if have[l] {
+			return true
+		}
+		// a layout with a fraction after the seconds accepts what the one without accepts … no: it requires the
+		// fraction. Only the reverse holds, so nothing else stands in.
+		return false
+	}
+	for _, l := range spec.Layouts {
+		key := "xmp.parseDate | accepts the form " + l
+		switch {
+		case covers(l):
+			r.OK("DATEFORMS", key, p.posStr(f.Pos()), "a time.Parse with this layout is reachable")
+		case und != "":
+			r.Undecided("DATEFORMS", key, p.posStr(f.Pos()), und)
+		default:
+			r.Bad("DATEFORMS", key, p.posStr(f.Pos()), "no time.Parse with the layout "+l+" is reachable from parseDate: a value of that form, legal for the XMP Date type, is refused and the property is reported as the zero time")
+		}
 	}
 }
